@@ -165,4 +165,7 @@ class DeadCodeElimination(ModulePass):
     name = "dce"
 
     def apply(self, ctx: Context, op: ModuleOp) -> None:
-        region_dce(op.body)
+        # Removing an operation (with its regions) or an unreachable block can make
+        # further operations dead: iterate until a run removes nothing.
+        while region_dce(op.body):
+            pass
